@@ -460,6 +460,29 @@ def r7(prog, ev, rep, fn):
             other_ok = other.k == "call" and other.a[0] == STATE + "nothing"
             good = g_ok and elem_ok and other_ok
             why = "condition `%s`, element `%s`, otherwise `%s`" % (g, th, other)
+    if not readable and len(sel) == 1 and sel[0][1] == "definite":
+        # `match <[Pointer<T>; 1]>::try_from(items) { Ok([item]) => Ref(item), Err(_) => nothing }`: Ok exactly for one element
+        b = t.a[1][sel[0][0]][2]
+        if b.k == "match" and b.a[0].k == "call" and "TryFrom<alloc::vec::Vec" in b.a[0].a[0] and "[T; N]" in b.a[0].a[0] and len(b.a[0].a) == 2 \
+                and b.a[0].a[1] == refs and len(b.a[1]) == 2:
+            okarm = errarm = None
+            for p_, g_, body_ in b.a[1]:
+                q = p_
+                while q.get("k") in ("Deref", "DerefPattern"):
+                    q = q["sub"]
+                if g_ is None and q.get("k") == "Variant" and q.get("variant") == "Ok" and q.get("fields"):
+                    inner = q["fields"][0]["pat"]
+                    if inner.get("k") in ("Array", "Slice") and len(inner.get("prefix") or []) == 1 and not inner.get("slice") and not inner.get("suffix"):
+                        okarm = body_
+                elif g_ is None and (q.get("k") == "Wild" or (q.get("k") == "Variant" and q.get("variant") == "Err")):
+                    errarm = body_
+            if okarm is not None and errarm is not None:
+                readable = True
+                elem_ok = okarm.k == "call" and okarm.a[0] == STATE + "data" and len(okarm.a) == 3 and okarm.a[2].k == "adt" and okarm.a[2].a[1] == "Ref" \
+                    and any(y == b.a[0] for y in subterms(okarm.a[2].a[2][0][1]))
+                other_ok = errarm.k == "call" and errarm.a[0] == STATE + "nothing"
+                good = elem_ok and other_ok
+                why = "one-element conversion: element `%s`, otherwise `%s`" % (okarm, errarm)
     if not readable:
         b = t.a[1][sel[0][0]][2] if sel else None
         rep.unrecognised("C10-R7", "value/Refs", where, "how value() treats a node list could not be read (expected `len == 1 -> element 0, else "
